@@ -550,7 +550,13 @@ class Poly:
         for m, c in self.t.items():
             x = float(c)
             for v in m:
-                x *= val(v)
+                f = val(v)
+                if f == 0.0:
+                    # an indicator atom that is 0 switches the term off even if another
+                    # factor (the branch not taken) is not finite
+                    x = 0.0
+                    break
+                x *= f
             tot += x
         return tot
 
